@@ -68,8 +68,8 @@ MapApply(m, op, tab) ==
                                ELSE R(m, [vac |-> FALSE])
     [] op[1] = "retain_nonempty" -> R([x \in {y \in DOMAIN m : m[y] # <<>>} |-> m[x]], [calls |-> Cardinality(DOMAIN m)])
     [] op[1] = "retain_key_ne" -> R([x \in DOMAIN m \ {LK(k)} |-> m[x]], [calls |-> Cardinality(DOMAIN m)])
-    [] op[1] = "retain_mut_append" -> R([x \in DOMAIN m |-> m[x] \o k], [calls |-> Cardinality(DOMAIN m)])
-    [] op[1] = "iter_mut_append" -> R([x \in DOMAIN m |-> m[x] \o k], [calls |-> Cardinality(DOMAIN m)])
+    [] op[1] = "retain_mut_set" -> R([x \in DOMAIN m |-> k], [calls |-> Cardinality(DOMAIN m)])
+    [] op[1] = "iter_mut_set" -> R([x \in DOMAIN m |-> k], [calls |-> Cardinality(DOMAIN m)])
     [] op[1] = "clear" -> R(EmptyFn, [unit |-> TRUE])
     [] op[1] = "reserve" -> R(m, [unit |-> TRUE])
     [] op[1] = "insert_typed_repo" -> R(FnSet(m, REPO, k), [unit |-> TRUE])
@@ -155,8 +155,8 @@ VecApply(vec, op, tab) ==
     [] op[1] = "retain_nonempty" -> V(SelectSeq(vec, LAMBDA e : e[2] # <<>>), [calls |-> Len(vec)])
     \* closure |key, _| key != probe, through PartialEq<S> for QualifierKey (case-insensitive)
     [] op[1] = "retain_key_ne" -> V(SelectSeq(vec, LAMBDA e : KeyCmp(e[1], k, tab) # 0), [calls |-> Len(vec)])
-    [] op[1] = "retain_mut_append" -> V([i \in 1..Len(vec) |-> <<vec[i][1], vec[i][2] \o k>>], [calls |-> Len(vec)])
-    [] op[1] = "iter_mut_append" -> V([i \in 1..Len(vec) |-> <<vec[i][1], vec[i][2] \o k>>], [calls |-> Len(vec)])
+    [] op[1] = "retain_mut_set" -> V([i \in 1..Len(vec) |-> <<vec[i][1], k>>], [calls |-> Len(vec)])
+    [] op[1] = "iter_mut_set" -> V([i \in 1..Len(vec) |-> <<vec[i][1], k>>], [calls |-> Len(vec)])
     [] op[1] = "clear" -> V(<<>>, [unit |-> TRUE])
     [] op[1] = "reserve" -> V(vec, [unit |-> TRUE])
     [] op[1] = "insert_typed_repo" -> LET s == Search(vec, REPO, tab) IN
